@@ -54,9 +54,9 @@ Definition eval_compare (op : cmpop) (left right : value) : option value :=
   | CEq => Some (VBool (value_eqb left right))
   | CNe => Some (VBool (negb (value_eqb left right)))
   | CLt => Some (VBool (value_ltb left right))
-  | CLe => Some (VBool (value_ltb left right || value_eqb left right))
+  | CLe => Some (VBool (negb (value_ltb right left)))
   | CGt => Some (VBool (value_ltb right left))
-  | CGe => Some (VBool (value_ltb right left || value_eqb left right))
+  | CGe => Some (VBool (negb (value_ltb left right)))
   | CIn => omap VBool (ok_of (contains right left))
   | CNotIn => omap (fun b => VBool (negb b)) (ok_of (contains right left))     (* .map(|v| !v.is_true()) *)
   end.
